@@ -265,9 +265,14 @@ impl LexiconReader {
         self.num_system = num;
     }
 
-    pub fn preload_pos(&mut self, grammar: &Grammar) {
+    /// Registers the parts of speech of the system dictionary.
+    ///
+    /// Only the first `num_system_pos` entries of the grammar belong to the system dictionary itself:
+    /// entries after them were registered at load time (by OOV plugins or by user dictionaries) and
+    /// are not known to `LexiconSet` as system parts of speech when the compiled dictionary is loaded.
+    pub fn preload_pos(&mut self, grammar: &Grammar, num_system_pos: usize) {
         assert_eq!(self.pos.len(), 0);
-        for (i, pos) in grammar.pos_list.iter().enumerate() {
+        for (i, pos) in grammar.pos_list.iter().take(num_system_pos).enumerate() {
             let key = StrPosEntry::from_built_pos(pos);
             self.pos.insert(key, i as u16);
         }
